@@ -177,34 +177,58 @@ func (pe *permEnv) deregister(ctx sdk.Context, denom string) {
 	}
 }
 
+// storedRegistry decodes the registry straight from the tokenregistry KV store as seen through ctx,
+// bypassing the keeper's read path: this is "the registry as stored", what the judge decides on.
+func (pe *permEnv) storedRegistry(ctx sdk.Context) trtypes.Registry {
+	var r trtypes.Registry
+	bz := ctx.KVStore(pe.app.GetKey(trtypes.StoreKey)).Get(trtypes.WhitelistStorePrefix)
+	if len(bz) == 0 {
+		return r
+	}
+	pe.app.AppCodec().MustUnmarshal(bz, &r)
+	return r
+}
+
 func isRegistryRefusal(err error) bool {
 	return errors.Is(err, clptypes.ErrTokenNotSupported) || errors.Is(err, trtypes.ErrPermissionDenied) ||
 		errors.Is(err, trtypes.ErrNotAllowedToSellAsset) || errors.Is(err, trtypes.ErrNotAllowedToBuyAsset) ||
 		errors.Is(err, ibctypes.ErrAmountTooLowToConvert)
 }
 
-// run delivers one AMM message / transfer on a cache of tctx and emits the lines.
-func (pe *permEnv) run(tctx sdk.Context, m permMsg, out *Out) {
-	reg := pe.app.TokenRegistryKeeper.GetRegistry(tctx)
+type stubFail struct{}
+
+func (stubFail) Transfer(context.Context, *transfertypes.MsgTransfer) (*transfertypes.MsgTransferResponse, error) {
+	return nil, errors.New("ibc-go refused (rigged)")
+}
+
+func dashed(s string) string {
+	if s == "" {
+		return "-"
+	}
+	return s
+}
+
+// fieldsOf renders the message fields the Lean side needs; pool depths are read from ctx.
+func (pe *permEnv) fieldsOf(ctx sdk.Context, m permMsg) string {
 	R, A := big.NewInt(0), big.NewInt(0)
 	rr, aa := big.NewInt(0), big.NewInt(0)
 	if m.kind == "add" {
-		pool, err := pe.app.ClpKeeper.GetPool(tctx, m.ext)
+		pool, err := pe.app.ClpKeeper.GetPool(ctx, m.ext)
 		if err != nil {
 			panic(err)
 		}
 		nd, ed := pool.ExtractDebt(pool.NativeAssetBalance, pool.ExternalAssetBalance, false)
 		R, A, rr, aa = nd.BigInt(), ed.BigInt(), m.r.BigInt(), m.a.BigInt()
 	}
-	d := func(s string) string {
-		if s == "" {
-			return "-"
-		}
-		return s
-	}
-	fields := fmt.Sprintf("rowan %s %s %s %s %s %s %s %s %s", d(m.ext), d(m.sent), d(m.received), d(m.token), b2s(m.amount > 0), R, A, rr, aa)
-	before := pe.digest(tctx)
-	mctx, write := tctx.WithBlockHeight(5).CacheContext()
+	return fmt.Sprintf("rowan %s %s %s %s %s %s %s %s %s", dashed(m.ext), dashed(m.sent), dashed(m.received), dashed(m.token), b2s(m.amount > 0), R, A, rr, aa)
+}
+
+// exec runs the handler of one message directly on ctx (no cache of its own).  failBody rigs the
+// part AFTER the registry guards to fail (minimum received too high, asymmetric removal, more
+// units than owned, more coins than owned, existing pool, ibc-go refusing).
+// Returns accepted and the answer line.
+func (pe *permEnv) exec(ctx sdk.Context, m permMsg, failBody bool) (bool, string, string) {
+	before := pe.digest(ctx)
 	reached := false
 	var err error
 	panicked := false
@@ -215,10 +239,13 @@ func (pe *permEnv) run(tctx sdk.Context, m permMsg, out *Out) {
 				err = fmt.Errorf("panic: %v", r)
 			}
 		}()
-		w := sdk.WrapSDKContext(mctx)
+		w := sdk.WrapSDKContext(ctx)
 		switch m.kind {
 		case "createpool":
 			msg := &clptypes.MsgCreatePool{Signer: pe.user.String(), ExternalAsset: &clptypes.Asset{Symbol: m.ext}, NativeAssetAmount: pow10(20), ExternalAssetAmount: pow10(20)}
+			if failBody {
+				msg.NativeAssetAmount, msg.ExternalAssetAmount = pow10(45), pow10(45) // more than the signer owns
+			}
 			if err = msg.ValidateBasic(); err == nil {
 				_, err = pe.clp.CreatePool(w, msg)
 			}
@@ -229,48 +256,81 @@ func (pe *permEnv) run(tctx sdk.Context, m permMsg, out *Out) {
 			}
 		case "rm":
 			msg := &clptypes.MsgRemoveLiquidity{Signer: pe.user.String(), ExternalAsset: &clptypes.Asset{Symbol: m.ext}, WBasisPoints: sdk.NewInt(100), Asymmetry: sdk.ZeroInt()}
+			if failBody {
+				msg.Asymmetry = sdk.NewInt(1)
+			}
 			if err = msg.ValidateBasic(); err == nil {
 				_, err = pe.clp.RemoveLiquidity(w, msg)
 			}
 		case "rmu":
 			msg := &clptypes.MsgRemoveLiquidityUnits{Signer: pe.user.String(), ExternalAsset: &clptypes.Asset{Symbol: m.ext}, WithdrawUnits: pow10(15)}
+			if failBody {
+				msg.WithdrawUnits = pow10(60)
+			}
 			if err = msg.ValidateBasic(); err == nil {
 				_, err = pe.clp.RemoveLiquidityUnits(w, msg)
 			}
 		case "swap":
 			msg := &clptypes.MsgSwap{Signer: pe.user.String(), SentAsset: &clptypes.Asset{Symbol: m.sent}, ReceivedAsset: &clptypes.Asset{Symbol: m.received}, SentAmount: pow10(18), MinReceivingAmount: sdk.ZeroUint()}
+			if failBody {
+				msg.MinReceivingAmount = pow10(50)
+			}
 			if err = msg.ValidateBasic(); err == nil {
 				_, err = pe.clp.Swap(w, msg)
 			}
 		case "transfer":
-			srv := ibckeeper.NewMsgServerImpl(stubIBC{&reached}, pe.app.BankKeeper, pe.app.TokenRegistryKeeper)
+			var inner ibctypes.MsgServer = stubIBC{&reached}
+			if failBody {
+				inner = stubFail{}
+			}
+			srv := ibckeeper.NewMsgServerImpl(inner, pe.app.BankKeeper, pe.app.TokenRegistryKeeper)
 			msg := &transfertypes.MsgTransfer{SourcePort: "transfer", SourceChannel: "channel-0", Token: sdk.Coin{Denom: m.token, Amount: sdk.NewInt(m.amount)},
 				Sender: pe.user.String(), Receiver: "cosmos1xyz", TimeoutHeight: clienttypes.NewHeight(0, 1000)}
 			_, err = srv.Transfer(w, msg)
 		}
 	}()
-	ans, cls := "", ""
 	accepted := err == nil && !panicked
 	switch {
 	case accepted && m.kind == "transfer" && !reached:
-		ans, cls = "lost", "lost"
+		return accepted, "lost", "lost"
 	case accepted:
-		ans, cls = "pass", "pass"
+		return accepted, "pass", "pass"
 	case panicked || isRegistryRefusal(err):
 		pre := "0"
-		if pe.digest(mctx) != before {
+		if pe.digest(ctx) != before {
 			pre = "1"
 		}
-		ans, cls = "refuse prewrite="+pre, "refuse"
-	default:
-		ans, cls = "other:"+strings.ReplaceAll(fmt.Sprint(err), " ", "_"), "other"
+		return accepted, "refuse prewrite=" + pre, "refuse"
+	case failBody:
+		return accepted, "bodyfail", "bodyfail"
 	}
+	return accepted, "other:" + strings.ReplaceAll(fmt.Sprint(err), " ", "_"), "other"
+}
+
+// emitMsg writes the message line and its accepted-chk; `stored` is the registry as stored (raw
+// bytes) in the context the message ran on, read BEFORE the message.
+func emitMsg(out *Out, m permMsg, failBody bool, fields string, stored trtypes.Registry, accepted bool, ans, cls, where string) {
+	op := "msg"
+	if failBody {
+		op = "msgf"
+	}
+	out.Emit(fmt.Sprintf("%s %s %s reg=%s", op, m.kind, fields, regDump(stored)), ans, where+m.kind+"."+m.route+"."+cls, true)
+	out.Emit(fmt.Sprintf("chk c12.accepted tag=%s%s.%s.accepted %s %s %s %s", where, m.kind, m.route, regDump(stored), m.kind, b2s(accepted), fields), "true", "chk.accepted", false)
+}
+
+// run delivers one AMM message / transfer as a one-message transaction on tctx (a cache of its
+// own, written only on success) and emits the lines.
+func (pe *permEnv) run(tctx sdk.Context, m permMsg, out *Out) {
+	stored := pe.storedRegistry(tctx)
+	fields := pe.fieldsOf(tctx, m)
+	before := pe.digest(tctx)
+	mctx, write := tctx.CacheContext()
+	accepted, ans, cls := pe.exec(mctx, m, false)
 	if accepted {
 		write()
 	}
 	after := pe.digest(tctx)
-	out.Emit(fmt.Sprintf("msg %s %s reg=%s", m.kind, fields, regDump(reg)), ans, m.kind+"."+m.route+"."+cls, true)
-	out.Emit(fmt.Sprintf("chk c12.accepted tag=%s.%s.accepted %s %s %s %s", m.kind, m.route, regDump(reg), m.kind, b2s(accepted), fields), "true", "chk.accepted", false)
+	emitMsg(out, m, false, fields, stored, accepted, ans, cls, "")
 	out.Emit(fmt.Sprintf("chk c12.refused tag=%s.%s.refused %s %s", m.kind, m.route, b2s(accepted), b2s(before == after)), "true", "chk.refused", false)
 }
 
@@ -329,7 +389,7 @@ func init() {
 			return es
 		}
 		emitReg := func(ctx sdk.Context, line string) {
-			out.Emit(line, regDump(pe.app.TokenRegistryKeeper.GetRegistry(ctx)), "reg."+strings.Fields(line)[1], false)
+			out.Emit(line, regDump(pe.storedRegistry(ctx)), "reg."+strings.Fields(line)[1], false)
 		}
 		// ---- L0: GetLiquidityAddSymmetryState on ratios around equality
 		for i := 0; i < 400+n/10; i++ {
@@ -463,6 +523,136 @@ func init() {
 					}
 				}
 				pe.run(tctx, m, out)
+			}
+		}
+		// ---- transaction histories (baseapp runMsgs discipline): a chain whose committed state evolves;
+		// every transaction runs ALL its messages on ONE branch, stops at the first failing message
+		// and is written back only if all succeeded and it is not a simulation.  Several transactions
+		// share a block height.  Shapes: [edit, failing message], [edit, message], [message…],
+		// simulated [edit(, message)], each followed by plain messages that must be judged on the
+		// registry as STORED.
+		toks5 := append(append([]string{}, all...), tokX)
+		randEntry := func() *trtypes.RegistryEntry {
+			tk := toks5[rng.Intn(len(toks5))]
+			mask := rng.Intn(32)
+			if rng.Chance(1, 2) {
+				mask = []int{0, 1, 3, 1 | 8, 1 | 16, 2, 1 | 2 | 4}[rng.Intn(7)] // drop / grant exactly the permissions that matter
+			}
+			unit := ""
+			if rng.Chance(1, 8) {
+				unit = all[rng.Intn(len(all))]
+			}
+			return entryOf(tk, mask, unit)
+		}
+		nHist := 2 + n/60
+		for hi := 0; hi < nHist; hi++ {
+			he := newPermEnv()
+			cur := he.ctx
+			height := int64(10)
+			out.Emit("reset", "ok", "reset", false)
+			he.setRegistry(cur.WithBlockHeight(height), good())
+			out.Emit("reg set "+regDump(trtypes.Registry{Entries: good()}), regDump(he.storedRegistry(cur)), "reg.set", false)
+			pickMsg := func(ctx sdk.Context) (permMsg, bool) {
+				m := msgs[rng.Intn(len(msgs))]
+				if m.kind == "transfer" && rng.Chance(1, 3) {
+					m.token = toks5[rng.Intn(len(toks5))]
+				}
+				if m.kind == "createpool" {
+					if _, err := he.app.ClpKeeper.GetPool(ctx, m.ext); err == nil {
+						return m, false
+					}
+				}
+				return m, true
+			}
+			for ti := 0; ti < 45; ti++ {
+				if rng.Chance(1, 5) {
+					height++ // most transactions share the height of their predecessors
+				}
+				type item struct {
+					edit     string // "", register, deregister, set
+					entry    *trtypes.RegistryEntry
+					denom    string
+					fail     bool
+				}
+				var items []item
+				mkEdit := func() item {
+					switch rng.Intn(5) {
+					case 0:
+						return item{edit: "deregister", denom: toks5[rng.Intn(len(toks5))]}
+					case 1:
+						return item{edit: "set"}
+					default:
+						return item{edit: "register", entry: randEntry()}
+					}
+				}
+				sim := false
+				switch sh := rng.Intn(10); {
+				case sh < 3:
+					items = []item{mkEdit(), {fail: true}}
+				case sh < 5:
+					items = []item{mkEdit(), {}}
+				case sh < 8:
+					for k := 0; k < 1+rng.Intn(3); k++ {
+						items = append(items, item{fail: rng.Chance(1, 8)})
+					}
+				case sh < 9:
+					items = []item{mkEdit()}
+				default:
+					sim = true
+					items = []item{mkEdit()}
+					if rng.Chance(1, 2) {
+						items = append(items, item{})
+					}
+				}
+				before := he.digest(cur)
+				bctx, write := cur.WithBlockHeight(height).CacheContext()
+				out.Emit("tx begin", "ok", "tx.begin", false)
+				allOK := true
+				for _, it := range items {
+					if it.edit != "" {
+						switch it.edit {
+						case "register":
+							he.register(bctx, it.entry)
+							out.Emit("reg register "+entryDump(it.entry), regDump(he.storedRegistry(bctx)), "tx.reg.register", false)
+						case "deregister":
+							he.deregister(bctx, it.denom)
+							out.Emit("reg deregister "+it.denom, regDump(he.storedRegistry(bctx)), "tx.reg.deregister", false)
+						case "set":
+							var es []*trtypes.RegistryEntry
+							for k := 0; k < 3+rng.Intn(4); k++ {
+								es = append(es, randEntry())
+							}
+							he.setRegistry(bctx, es)
+							out.Emit("reg set "+regDump(trtypes.Registry{Entries: es}), regDump(he.storedRegistry(bctx)), "tx.reg.set", false)
+						}
+						continue
+					}
+					m, ok := pickMsg(bctx)
+					if !ok {
+						continue
+					}
+					if it.fail && m.kind == "add" {
+						m.r, m.a = pow10(45), pow10(45).MulUint64(uint64(1+rng.Intn(3))) // more than the signer owns
+					}
+					stored := he.storedRegistry(bctx)
+					fields := he.fieldsOf(bctx, m)
+					accepted, ans, cls := he.exec(bctx, m, it.fail)
+					emitMsg(out, m, it.fail, fields, stored, accepted, ans, cls, "tx.")
+					if !accepted {
+						allOK = false
+						break // runMsgs stops at the first failing message
+					}
+				}
+				committed := allOK && !sim
+				if committed {
+					write()
+				}
+				word := "rolledback"
+				if committed {
+					word = "committed"
+				}
+				out.Emit("tx end "+b2s(sim), word+" "+regDump(he.storedRegistry(cur)), "tx.end."+word, true)
+				out.Emit(fmt.Sprintf("chk c12.refused tag=tx.%s.state %s %s", word, b2s(committed), b2s(before == he.digest(cur))), "true", "chk.refused", false)
 			}
 		}
 		keys := make([]string, 0)
